@@ -240,6 +240,13 @@ func Main(t *testing.T, e Engine) {
 			fmt.Fprintf(os.Stderr, "\nFATAL-LOG property=%s replay=%s detail=%s\n", prop, path, msg)
 			os.Exit(4)
 		}
+		if outPath != "" {
+			// the run in progress, so that the driver can replay it if a panic of the library kills this process
+			raw, _ := json.Marshal(sc)
+			rf := ReplayFile{Engine: e.Name(), Property: prop, Mode: mode, Tier: tier, Seed: cfg.Seed, Index: idx, Scenario: raw}
+			b, _ := json.Marshal(rf)
+			_ = os.WriteFile(outPath+".current", b, 0o644)
+		}
 		res := RunOne(t, e, cfg, sc)
 		if os.Getenv("VERIF_DUMP") != "" {
 			b, _ := json.Marshal(sc)
